@@ -57,9 +57,12 @@ def run(chk):
             n_hist[0] += 1
             root = os.path.join(tmp, f'h{n_hist[0]}'); os.makedirs(root)
             mem = MemoryStore(allow_custom=True); fs = FileSystemStore(root, allow_custom=True); model = D.ListModel()
+            prefix_file = [None]
             try:
-                for idx, form in hist:
+                for pos, (idx, form) in enumerate(hist):
                     label, d = pool[idx]
+                    if pos == 1:
+                        prefix_file[0] = os.path.join(root, 'prefix.json'); mem.save_to_file(prefix_file[0])
                     mem.add(D.in_form(d, form, for_fs=False))
                     try: fs.add(D.in_form(d, form, for_fs=True))
                     except DataSourceError as ex:
@@ -100,6 +103,23 @@ def run(chk):
                     except (TypeError, ValueError): continue
                     reg = lambda ks: [k for k in ks if not k[0].startswith('x-vf-unreg')]          # (dictionary-kept custom content compares timestamps as text: the known finding)
                     if reg(a) != reg(b): return ('stores agree#query on a defaulted property or a respelled timestamp', f'{[(labels[i], f_) for i, f_ in hist]}: query({f}) gives {reg(a)} in memory and {reg(b)} on the filesystem', {})
+                # a stored object is found by an equality filter spelled exactly like its own timestamp -- dictionary-kept custom content included (text equality and
+                # instant equality agree there), whatever was added or examined before it
+                for k, d in list(model.items.items()):
+                    for prop in ('created', 'modified'):
+                        if not isinstance(d.get(prop), str): continue
+                        for sname, st in (('memory', mem), ('filesystem', fs)):
+                            try: got = {D.version_key(o) for o in st.query([Filter(prop, '=', d[prop])])}
+                            except (TypeError, ValueError) as ex: return (f'{sname}#query == stored objects satisfying it', f'{[(labels[i], f_) for i, f_ in hist]}: query({prop} = {d[prop]!r}) raised {type(ex).__name__}: {ex}', {})
+                            if k not in got: return (f'{sname}#query == stored objects satisfying it', f'{[(labels[i], f_) for i, f_ in hist]}: {sname}.query({prop} = {d[prop]!r}) does not return {k}, whose {prop} is spelled exactly so', {})
+                # loading a file into a store that already holds versions of the same ids adds what is new and loses nothing (the file: this store as it was after the first addition)
+                if prefix_file[0]:
+                    mem.load_from_file(prefix_file[0])
+                    for oid in ids:
+                        a = sorted((D.version_key(o) for o in mem.all_versions(oid)), key=repr)
+                        if a != model.all_versions(oid): return ('memory#load_from_file into a store that holds versions already', f'{[(labels[i], f) for i, f in hist]}: after loading an earlier state of the same store all_versions({oid}) = {a}, list model {model.all_versions(oid)}', {})
+                        g = mem.get(oid)
+                        if g is None or D.version_key(g) != model.get(oid): return ('memory#load_from_file into a store that holds versions already', f'{[(labels[i], f) for i, f in hist]}: after loading an earlier state get({oid}) = {g and D.version_key(g)}, list model {model.get(oid)}', {})
                 # save / load round trip of the memory store
                 fpath = os.path.join(root, 'saved.json'); mem.save_to_file(fpath)
                 mem2 = MemoryStore(allow_custom=True); mem2.load_from_file(fpath)
